@@ -303,6 +303,8 @@ impl Engine for Catchup {
     }
     fn generate(&self, seed: u64, prop: &str) -> RunRecord {
         let (cfg, cmds) = gen(seed);
+        crate::abort::tee_cfg("E3-catchup", "arbitrary", &serde_json::to_value(&cfg).unwrap());
+        crate::abort::tee_cmds(&cmds);
         let (outcome, _) = execute(&cfg, &cmds, false, prop);
         RunRecord { engine: "E3-catchup", profile: "arbitrary".into(), cfg: serde_json::to_value(&cfg).unwrap(), cmds: cmds.iter().map(|c| serde_json::to_value(c).unwrap()).collect(), outcome }
     }
